@@ -37,10 +37,13 @@ const Prelude = `
 (declare-fun content ((Array Ptr Int) Slice) Str)
 (assert (forall ((h (Array Ptr Int)) (s Slice)) (! (=> (>= (slen_ s) 0) (= (slen (content h s)) (slen_ s))) :pattern ((content h s)))))
 (assert (forall ((h (Array Ptr Int)) (s Slice) (i Int)) (! (=> (and (<= 0 i) (< i (slen_ s))) (= (sat (content h s) i) (select h (selem s i)))) :pattern ((sat (content h s) i)))))
+(declare-fun ssub (Str Int Int) Str)
+(declare-fun subslice (Slice Int Int Int) Slice)
+(assert (forall ((s Slice) (lo Int) (hi Int) (mx Int)) (! (= (subslice s lo hi mx) (mkslice (sbase s) (+ (soff s) lo) (- hi lo) (- mx lo))) :pattern ((subslice s lo hi mx)))))
+(assert (forall ((h (Array Ptr Int)) (s Slice) (lo Int) (hi Int) (mx Int)) (! (=> (and (<= 0 lo) (<= lo hi) (<= hi (slen_ s))) (= (content h (subslice s lo hi mx)) (ssub (content h s) lo hi))) :pattern ((content h (subslice s lo hi mx))))))
 (declare-fun scat (Str Str) Str)
 (assert (forall ((a Str) (b Str)) (! (= (slen (scat a b)) (+ (slen a) (slen b))) :pattern ((scat a b)))))
 (assert (forall ((a Str) (b Str) (i Int)) (! (= (sat (scat a b) i) (ite (< i (slen a)) (sat a i) (sat b (- i (slen a))))) :pattern ((sat (scat a b) i)))))
-(declare-fun ssub (Str Int Int) Str)
 (assert (forall ((a Str) (l Int) (h Int)) (! (=> (and (<= 0 l) (<= l h) (<= h (slen a))) (= (slen (ssub a l h)) (- h l))) :pattern ((ssub a l h)))))
 (assert (forall ((a Str) (l Int) (h Int) (i Int)) (! (=> (and (<= 0 l) (<= l h) (<= h (slen a)) (<= 0 i) (< i (- h l))) (= (sat (ssub a l h) i) (sat a (+ l i)))) :pattern ((sat (ssub a l h) i)))))
 (declare-fun box_Str (Str) Int)
@@ -91,6 +94,7 @@ type Obligation struct {
 	// ExpectFail marks a canary: the obligation must NOT be provable.
 	ExpectFail bool
 	File string
+	Seq  int
 	// Inputs: decoded counterexample inputs from the bounded search (model.go).
 	Inputs    map[string]string
 	ModelNote string
@@ -353,16 +357,23 @@ func runSolver(ctx context.Context, sp solverSpec, file string, timeoutS int) so
 	case strings.Contains(s, "interrupted by timeout") || strings.Contains(s, "cvc5 interrupted"):
 		v = "timeout"
 	}
+	// a malformed script is a tool error, never a verdict (z3 4.8.12 prints an
+	// error for get-value after unsat: only errors before the verdict count).
+	if i := strings.Index(s, "(error"); i >= 0 && (v == "error" || i < strings.Index(s, first)) && !strings.Contains(s[i:], "model is not available") {
+		v = "error"
+	}
 	return solveResult{v, sp.name, s, time.Since(t0).Seconds()}
 }
 
 // Discharge runs the portfolio on one obligation. quick: z3-new first, then
 // the others in parallel if it did not decide.
 func (o *Obligation) Discharge(dir string, timeoutS int, all bool) {
-	file := filepath.Join(dir, sanitize(o.Name)+".smt2")
-	if len(file) > 200 {
-		file = filepath.Join(dir, fmt.Sprintf("%s_%x.smt2", sanitize(o.Name)[:100], hashString(o.Name)))
+	base := sanitize(o.Name)
+	if len(base) > 120 {
+		base = base[:120]
 	}
+	// the sequence number keeps files of equally named obligations apart
+	file := filepath.Join(dir, fmt.Sprintf("%04d_%s.smt2", o.Seq, base))
 	o.File = file
 	if err := os.WriteFile(file, []byte(o.Script(true)), 0o644); err != nil {
 		o.Verdict = "error"
@@ -379,7 +390,7 @@ func (o *Obligation) Discharge(dir string, timeoutS int, all bool) {
 	ctx := context.Background()
 	if !all {
 		r := runSolver(ctx, solvers[0], file, first)
-		if r.verdict == "unsat" || r.verdict == "sat" {
+		if r.verdict == "unsat" || r.verdict == "sat" || r.verdict == "error" {
 			o.setResult(r)
 			return
 		}
